@@ -7,7 +7,7 @@ CONSTANTS
   AVals = {"good", "zero", "N", "missing", "replay"}
   Proofs = {"right", "wrong", "missing", "nilkey"}
   Seals = {"this", "other", "zero", "random", "nilkey"}
-  Bodies = {"genuine", "badsig", "mismatch", "badtlv"}
+  Bodies = {"genuine", "badsig", "mismatch", "badtlv", "smallorder"}
   Shapes = {"ok", "tagflip", "ctflip", "short", "empty"}
 INVARIANTS TypeOK KeyNeedsProof
 PROPERTIES StoreRule
